@@ -53,10 +53,11 @@ def classes(ctx):
     return c
 
 
-def parse_linear(ctx, name, build):
+def parse_linear(ctx, name, build, one_segment=False):
     """parse result of one fixed statement (a linear spec) by the same machinery"""
     lm = ctx.lexer
     s = Spec(name, lm, accumulators={"expr", "defcolumn", "table_name"})
+    s.one_segment_statements = one_segment
     end = build(s, s.start)
     s.acc.add(end)
     got = []
@@ -236,6 +237,19 @@ class AlterOracle:
         self.alone = {}
         from ..objabs import format_output
         self.fmt = format_output
+        # an earlier ALTER on each table (a two-column ADD UNIQUE, which flags no column): every statement is also judged when
+        # it FOLLOWS that one - what a statement does must not depend on the ALTERs before it
+        self.prior = {}
+        lm = ctx.lexer
+        P = punct(lm)
+        for ti, sch in ((0, C["s1"]["same"]), (1, C["s2"]["same"]), (2, None), (3, C["s1"]["same"])):
+            def build(s, a, sch=sch, ti=ti):
+                a = s.words(a, "head", [("KW", "ALTER"), ("KW", "TABLE")])
+                if sch is not None:
+                    a = s.words(a, "head", [(sch, "schema"), P["."]], begin=False)
+                a = s.words(a, "head", [(C["u"] if ti == 3 else C["t"]["same"], "name")], begin=False)
+                return s.words(a, "act", [("KW", "ADD"), ("KW", "UNIQUE"), P["("], (C["a"], "c1"), P[","], (C["c"], "c2"), P[")"]], begin=False)
+            self.prior[ti] = parse_linear(ctx, f"prior-alter-{ti}", build, one_segment=True)
         for mode in modes:
             self.alone[mode] = self.fmt(ctx, copy.deepcopy(self.base), mode)
             if len(self.alone[mode]) != 4:
@@ -314,6 +328,33 @@ class AlterOracle:
                        f"(result has {len(out)} entries)", wit)
                 continue
             self.judge(ex, kind, refkey, target, roles, out, self.alone[mode], wit)
+            # ... and the same statement after an earlier ALTER on the same table
+            if kind != "act:INDEX" or True:
+                try:
+                    both = self.fmt(self.ctx, copy.deepcopy(self.base) + [copy.deepcopy(self.prior[target]), copy.deepcopy(final)], mode)
+                except (PyRaise, ShapeMismatch) as e2:
+                    ex.add("O-final", f"alter: `{kind}` after an earlier ALTER on the same table: the output layer fails",
+                           f"{e2}; the statement alone is formatted fine", wit + "   (preceded by ALTER TABLE ... ADD UNIQUE (a, c))")
+                    continue
+                except (LexUnknown, NonUniform) as e2:
+                    raise AnalysisError(f"alter fragment: output layer outside the interpreted subset: {e2}")
+                self.checked += 1
+                ok = isinstance(both, list) and len(both) == len(out) and all(
+                    deep_eq_safe(both[i], out[i]) for i in range(len(out)) if i != target)
+                if ok:
+                    b, o = both[target], out[target]
+                    ok = all(deep_eq_safe(b.get(k), o.get(k)) for k in o if k != "alter") and set(b) == set(o)
+                    if ok and not Holds([self.C["a"].word, self.C["c"].word]).match(b.get("alter")):
+                        ok = False
+                    if ok and isinstance(o.get("alter"), dict) and isinstance(b.get("alter"), dict):
+                        for k, v in o["alter"].items():
+                            if k != "uniques" and not deep_eq_safe(b["alter"].get(k), v):
+                                ok = False
+                if not ok:
+                    ex.add("O-final", f"alter: `{kind}` behaves differently when it follows another ALTER on the same table",
+                           "preceded by ALTER TABLE <same table> ADD UNIQUE (a, c) - which flags no column and touches nothing but the alter "
+                           "section - the statement must leave the columns, keys, index list and every other entry exactly as when it "
+                           f"stands alone; got {show(both[target] if isinstance(both, list) and len(both) > target else both)!r}"[:700], wit)
 
     # ------------------------------------------------------------------
     def judge(self, ex, kind, refkey, target, roles, out, alone, wit):
